@@ -286,6 +286,38 @@ func genRename(prop string, seed uint64, run int, tier string) *Scenario {
 // ---------------------------------------------------------------------------
 // C06 / C13: Close at an arbitrary point
 
+// genReuse: Close of one Watcher while its reader still holds unprocessed
+// notifications that make it issue syscalls (rename of a watched file), with a
+// second Watcher created right away (descriptor number reuse) and given watches
+// with the same small wd numbers.
+func genReuse(prop string, seed uint64, run int) *Scenario {
+	g := newGen(seed)
+	sc := &Scenario{Prop: prop, Family: "reuse", Seed: seed, Run: run}
+	g.swarm(&sc.Cfg)
+	sc.Cfg.Weights = map[string]float64{"reader": []float64{0.02, 0.1, 0.5}[g.r.Intn(3)], "consumer": []float64{0.1, 1}[g.r.Intn(2)]}
+	sc.Cfg.BatchMode = 2
+	sc.Setup = []Op{{K: OpMkdir, P: "d0"}, {K: OpMkdir, P: "d1"}, {K: OpMkdir, P: "out"}, {K: OpCreate, P: "d0/f"}, {K: OpCreate, P: "d0/g"},
+		{K: OpNewWatcher, N: []int{-1, 0, 1}[g.r.Intn(3)]}, {K: OpAdd, P: "d0/f"}, {K: OpAdd, P: "d0/g"}, {K: OpAdd, P: "d0"}}
+	var w []Op
+	for k := 1 + g.r.Intn(3); k > 0; k-- {
+		w = append(w, Op{K: OpCreate, P: fmt.Sprintf("d0/x%d", k)})
+	}
+	w = append(w, Op{K: OpRename, P: "d0/f", P2: "out/f"}, Op{K: OpRename, P: "d0/g", P2: "out/g"})
+	for k := g.r.Intn(3); k > 0; k-- {
+		w = append(w, Op{K: OpCreate, P: fmt.Sprintf("d0/y%d", k)})
+	}
+	cl := []Op{{K: OpYield}, {K: OpClose, W: 0}}
+	mk := []Op{{K: OpYield}, {K: OpNewWatcher, N: -1}, {K: OpAdd, W: 1, P: "d1"}, {K: OpAdd, W: 1, P: "d0"}, {K: OpAdd, W: 1, P: "out"}}
+	if g.chance(0.5) {
+		// closer and maker are one task: Close, then immediately a new Watcher
+		sc.Tasks = []TaskScript{{Name: "world0", Role: "world", Ops: w}, {Name: "client0", Role: "client", Ops: append(cl, mk[1:]...)}}
+	} else {
+		sc.Tasks = []TaskScript{{Name: "world0", Role: "world", Ops: w}, {Name: "closer0", Role: "client", Ops: cl}, {Name: "maker", Role: "client", Ops: mk}}
+	}
+	sc.Tasks = append(sc.Tasks, TaskScript{Name: "world1", Role: "world", Ops: []Op{{K: OpYield}, {K: OpYield}, {K: OpCreate, P: "d1/late"}, {K: OpCreate, P: "out/late"}}})
+	return sc
+}
+
 func genClose(prop string, seed uint64, run int, tier string) *Scenario {
 	g := newGen(seed)
 	sc := genMix(prop, seed, run, mixOpts{lagfree: 0, apiChurn: 0.2, shapes: []int{0, 0, 1}, overflow: 0.1, maxOps: 16, watchFiles: 0.3, worldTasks: 2,
